@@ -257,25 +257,25 @@ def ts8(facts, rep):
 PO6_AUDIT = {
     'QGramIndex::qgram_matches|index:|index(arg1.address,arg2)<std::vec::Vec<usize>>':
         'callers pass codes yielded by self.ranks.qgrams(self.q, ..), which are < 2^(q*width) = address.len() - 1 (CS-1)',
-    'QGramIndex::qgram_matches|overflow-add:usize|arg2,1':
+    'QGramIndex::qgram_matches|overflow-add:usize|1,arg2':
         'qgram < 2^(q*width) <= usize::MAX / 2',
-    'QGramIndex::qgram_matches|index:|index(arg1.address,Add(arg2,1).0)<std::vec::Vec<usize>>':
+    'QGramIndex::qgram_matches|index:|index(arg1.address,Add(1,arg2).0)<std::vec::Vec<usize>>':
         'address has code space + 1 entries',
-    'QGramIndex::qgram_matches|index:|index(arg1.pos,Range::Range{Index<I>>::index(arg1.address,arg2),Index<I>>::index(arg1.address,Add(arg2,1).0)})<std::vec::Vec<usize>>':
+    'QGramIndex::qgram_matches|index:|index(arg1.pos,Range::Range{Index<I>>::index(arg1.address,arg2),Index<I>>::index(arg1.address,Add(1,arg2).0)})<std::vec::Vec<usize>>':
         'address is a prefix sum whose last entry is pos.len(): address[c] <= address[c+1] <= pos.len()',
-    'QGramIndex::matches|overflow-add:usize|x0,arg1.q':
+    'QGramIndex::matches|overflow-add:usize|arg1.q,x0':
         'text / pattern positions plus q stay far below usize::MAX',
-    'QGramIndex::matches|overflow-add:usize|OccupiedEntry::get_mut(x0).count,1':
+    'QGramIndex::matches|overflow-add:usize|1,OccupiedEntry::get_mut(x0).count':
         'at most one hit per (pattern position, text position)',
     'QGramIndex::matches|overflow-sub:isize|x0,x1':
         'difference of two positions < isize::MAX taken in isize',
     'QGramIndex::exact_matches|overflow-sub:i32|x0,x1':
         'difference of two positions taken in i32 (sequences shorter than 2^31)',
-    'QGramIndex::exact_matches|overflow-add:usize|x0,arg1.q':
+    'QGramIndex::exact_matches|overflow-add:usize|arg1.q,x0':
         'positions plus q stay far below usize::MAX',
     'QGramIndex::exact_matches|overflow-sub:usize|OccupiedEntry::get_mut(x0).pattern.stop,arg1.q':
         'pattern.stop = i + q >= q',
-    'QGramIndex::exact_matches|overflow-add:usize|Sub(OccupiedEntry::get_mut(x0).pattern.stop,arg1.q).0,1':
+    'QGramIndex::exact_matches|overflow-add:usize|1,Sub(OccupiedEntry::get_mut(x0).pattern.stop,arg1.q).0':
         'stop - q + 1 <= stop',
 }
 
